@@ -19,6 +19,7 @@ import (
 	"strings"
 	"sync"
 	"testing"
+	"verif/harness/world"
 
 	"pgregory.net/rapid"
 )
@@ -36,24 +37,24 @@ func failf(inv, sig, format string, a ...any) *Failure {
 
 // Outcome of running one case.
 type Outcome struct {
-	Fail       *Failure
-	Classes    []string // histogram labels
-	NonTrivial bool
-	Key        string // identity for distinctness ("" = JSON of the case)
-	Evals      int    // number of elementary evaluations inside the case (0 = 1)
-	Inconclusive bool // machine-load dependent step could not be decided
+	Fail         *Failure
+	Classes      []string // histogram labels
+	NonTrivial   bool
+	Key          string // identity for distinctness ("" = JSON of the case)
+	Evals        int    // number of elementary evaluations inside the case (0 = 1)
+	Inconclusive bool   // machine-load dependent step could not be decided
 }
 
 // Prop is one generated-search property.
 type Prop[C any] struct {
-	ID     string // C04
-	Name   string // sub-property
-	Quick  int    // rapid checks in the quick tier (total over all shards)
-	Thor   int    // rapid checks in the thorough tier (total over all shards)
-	Gen    func(t *rapid.T) C
-	Run    func(c C) Outcome
-	WAL    bool // write the case to a write-ahead file first (process-killing failures)
-	Rule   string
+	ID    string // C04
+	Name  string // sub-property
+	Quick int    // rapid checks in the quick tier (total over all shards)
+	Thor  int    // rapid checks in the thorough tier (total over all shards)
+	Gen   func(t *rapid.T) C
+	Run   func(c C) Outcome
+	WAL   bool // write the case to a write-ahead file first (process-killing failures)
+	Rule  string
 }
 
 type propStats struct {
@@ -320,6 +321,10 @@ func RunProp[C any](t *testing.T, p Prop[C]) {
 		if err := json.Unmarshal(rf.Case, &c); err != nil {
 			t.Fatalf("replay case: %v", err)
 		}
+		world.OnHang = func(what string) {
+			fmt.Printf("\nfatal error: %s\n", what)
+			os.Exit(3)
+		}
 		o := p.Run(c)
 		if o.Fail != nil {
 			fmt.Printf("REPLAY-FAIL property=%s prop=%s signature=%s invariant=%s detail=%s\n", p.ID, p.Name, o.Fail.Signature, o.Fail.Invariant, oneLine(o.Fail.Detail))
@@ -346,6 +351,14 @@ func RunProp[C any](t *testing.T, p Prop[C]) {
 	wal := filepath.Join(failDir(), fmt.Sprintf("wal-%s-%s-s%d.json", p.ID, p.Name, shard))
 	rapid.Check(t, func(rt *rapid.T) {
 		c := p.Gen(rt)
+		// a call into the application that never returns: record the case the way a crash is recorded and end the process
+		world.OnHang = func(what string) {
+			bz, _ := json.Marshal(c)
+			out, _ := json.Marshal(replayFile{Property: p.ID, Prop: p.Name, Seed: envInt("VERIF_SEED", 1), Case: bz})
+			_ = os.WriteFile(wal, out, 0o644)
+			fmt.Printf("\nfatal error: %s\n", what)
+			os.Exit(3)
+		}
 		if p.WAL {
 			bz, _ := json.Marshal(c)
 			out, _ := json.Marshal(replayFile{Property: p.ID, Prop: p.Name, Seed: envInt("VERIF_SEED", 1), Case: bz})
